@@ -39,7 +39,18 @@ def site(fi, node=None):
 
 def check(m, run):
     ag1(m, run)
-    ag2_and_layout(m, run)
+    # the mesh formats are decided by interpreting the writers in text mode on shapes built by the real classes, checking the text against
+    # the documented records and interpreting the readers on that very text (SM2); the rules that read how the writer assembles its
+    # records and which fields the reader picks corroborate
+    from .. import skel_drivers as _sd0
+    n0 = len(run.obs)
+    try:
+        _sd0.sm2(m, run)
+    except AnalysisError as ex:
+        run.error(str(ex))
+    sm_ok = len(run.obs) > n0 and all(o.ok for o in run.obs[n0:])
+    with run.corroborating(sm_ok, 'SM2', rules=('AG2.record-table', 'WV1.weight-form')):
+        ag2_and_layout(m, run)
     text_formats(m, run)
     file_helpers(m, run)
     wrappers(m, run)
